@@ -742,7 +742,7 @@ func (w *World) originValues(v ssa.Value) []ssa.Value {
 // isPlumbingCall: standard-library calls that only move a collection around (keys of a map,
 // a sorted or cloned copy, an iterator): they decide nothing about an element.
 func isPlumbingCall(name string) bool {
-	for _, p := range []string{"common.MapKeys", "common.MapValues", "maps.Keys", "maps.Values", "maps.All", "slices.Sorted", "slices.Collect", "slices.Clone", "slices.Values", "slices.All", "func:"} {
+	for _, p := range []string{"builtin.append", "builtin.make", "builtin.copy", "builtin.new", "common.MapKeys", "common.MapValues", "maps.Keys", "maps.Values", "maps.All", "slices.Sorted", "slices.Collect", "slices.Clone", "slices.Values", "slices.All", "func:"} {
 		if strings.HasPrefix(name, p) {
 			return true
 		}
@@ -826,4 +826,12 @@ func (w *World) predicateAnswerOnlyVia(h *ssa.Function, idx int, pol bool, legit
 		}
 	}
 	return true
+}
+
+// inspectRegion walks the syntax of fi and of the new functions it (transitively) uses:
+// rules that look for a construct "in fi" find it wherever it was moved to.
+func (w *World) inspectRegion(fi *FuncInfo, visit func(ast.Node) bool) {
+	for _, f := range w.astRegion(fi) {
+		ast.Inspect(f.Decl, visit)
+	}
 }
